@@ -11,6 +11,7 @@ use std::sync::Mutex;
 use std::time::Instant;
 
 pub const DEFAULT_SEED: u64 = 20261003;
+pub static HARNESS_ERRORS: AtomicU64 = AtomicU64::new(0);
 
 pub fn verif_seed() -> u64 {
     std::env::var("VERIF_SEED").ok().and_then(|s| s.trim().parse::<u64>().ok()).unwrap_or(DEFAULT_SEED)
@@ -185,8 +186,20 @@ pub fn run_batch(property: &str, profile: Profile, seed: u64, runs: u64, threads
                     if run >= runs {
                         break;
                     }
-                    let trace = gen::generate(property, profile, seed, run);
-                    let res = run_one(&trace);
+                    let attempt = std::panic::catch_unwind(std::panic::AssertUnwindSafe(|| {
+                        let trace = gen::generate(property, profile, seed, run);
+                        let res = run_one(&trace);
+                        (trace, res)
+                    }));
+                    let (trace, res) = match attempt {
+                        Ok(x) => x,
+                        Err(_) => {
+                            eprintln!("harness error: simulator panicked in {} run {} (seed {})", profile.name(), run, seed);
+                            HARNESS_ERRORS.fetch_add(1, Ordering::Relaxed);
+                            stop.store(true, Ordering::Relaxed);
+                            break;
+                        }
+                    };
                     local.absorb(&trace, &res.stats, run);
                     for v in res.violations.iter() {
                         if matches_property(v, property) {
@@ -463,6 +476,22 @@ impl Known {
     }
 }
 
+/// Every listed finding of the property is printed on every run, with
+/// whether this run reproduced it.
+pub fn report_known(known: &Known, property: &str, hits: &mut Vec<String>) {
+    for (p, sig, desc) in known.findings.iter() {
+        if p != property {
+            continue;
+        }
+        let reproduced = hits.iter().any(|h| h.contains(sig.as_str()));
+        if !reproduced {
+            let line = format!("KNOWN-FINDING: property={} {} [{}] (not reached in this run)", property, desc, sig);
+            println!("{}", line);
+            hits.push(line);
+        }
+    }
+}
+
 // ------------------------------------------------------------ evidence
 
 pub fn json_escape(s: &str) -> String {
@@ -625,6 +654,7 @@ pub fn check(property: &str, tier: &str) -> i32 {
             println!("VIOLATION property={} replay={}", property, path.display());
         }
     }
+    report_known(&known, property, &mut known_hits);
     let wall = t0.elapsed().as_secs_f64();
     let rep = CheckReport {
         property: property.to_string(),
@@ -650,6 +680,10 @@ pub fn check(property: &str, tier: &str) -> i32 {
         wall,
         violations
     );
+    if HARNESS_ERRORS.load(Ordering::Relaxed) > 0 {
+        eprintln!("harness error: the simulator itself failed; nothing is claimed");
+        return 2;
+    }
     if violations > 0 {
         1
     } else {
